@@ -168,6 +168,16 @@ static void check_string(const UChar *u, int do_parse) {
         rc = cif_analyze_string(u, au, at, lim, &a);
         evals++;
         if (rc != CIF_OK) { viol("analyze", "%s: cif_analyze_string returned %d", show(u), rc); continue; }
+        /* the two flags are documented as "zero if not acceptable, otherwise nonzero": any nonzero value means the same */
+        if (au || at) {
+            static const int nz[] = { 2, -1, 0x100 }; int k;
+            for (k = 0; k < 3; k++) {
+                struct cif_string_analysis_s b; memset(&b, 0x5a, sizeof b);
+                if (cif_analyze_string(u, au ? nz[k] : 0, at ? nz[(k + 1) % 3] : 0, lim, &b) != CIF_OK || memcmp(&a, &b, sizeof a) != 0)
+                    viol("flags", "%s: the analysis with allow_unquoted=%d allow_triple_quoted=%d differs from the one with %d / %d", show(u), au ? nz[k] : 0, at ? nz[(k + 1) % 3] : 0, au, at);
+                evals++;
+            }
+        }
         d = a.delim;
         /* O1: statistics (reported once per string) */
         if (li == 0 && au == 0 && at == 0) if (a.length != st.length || a.num_lines != st.nlines || a.length_first != st.first || a.length_last != st.last || a.length_max != st.max
